@@ -303,11 +303,54 @@ pub fn run(tier: Tier) -> i32 {
             }
         }
     }
+    // (c) a long stream (306 packets = more than three reader batches of 100): cuts exactly at, just before and just
+    //     after the batch boundaries, and 1..65 bytes into the packet that starts a new batch
+    {
+        let c = LinkCfg::ib(0, 5);
+        let sh = grammar::basic_hbf_shapes(&c);
+        let mut pk = grammar::render_link(&c, &vec![sh[1].1.clone(); 153]);
+        pk[1].packet.rdh.rdh1_reserved = 1;
+        pk[150].packet.rdh.rdh3_reserved = 0x0101;
+        pk[250].packet.rdh.rdh1_reserved = 1;
+        let bytes = grammar::contiguous(&[pk]).bytes();
+        let (walked, _) = stream::walk(&bytes);
+        let mut cuts: Vec<usize> = Vec::new();
+        for k in [100usize, 200, 300] {
+            for j in [k - 1, k, k + 1] {
+                cuts.push(walked[j].offset as usize);
+            }
+            let s0 = walked[k].offset as usize;
+            let len = (walked[k].payload.1 - s0) as usize;
+            for d in [1usize, 8, 20, 63, 64, 65] {
+                cuts.push(s0 + d.min(len - 1));
+            }
+            cuts.push(s0 + len - 1);
+        }
+        cuts.sort();
+        cuts.dedup();
+        for args in [vec!["check", "all", "its"], vec!["view", "rdh", "-d"], vec!["view", "its-readout-frames", "-d"]] {
+            let full = cli_full(&bytes, &args);
+            for stdin in [false, true] {
+                let res = par_map(&cuts, |_, c| cli_case(&full, &bytes, *c, &args, stdin));
+                for (c, r) in cuts.iter().zip(res.iter()) {
+                    evaluations += 1;
+                    if let Some((sig, d)) = r {
+                        rep.violation(Violation {
+                            signature: format!("{sig}:batch-boundary"),
+                            description: format!("{d} [306-packet base cut at byte {c} of {}, `{}` {}]", bytes.len(), args.join(" "), if stdin { "stdin" } else { "file" }),
+                            replay: json!({"kind": "cli", "args": args, "stdin": stdin, "cut": c, "full_hex": hex(&bytes)}),
+                        });
+                    }
+                }
+            }
+        }
+        rep.cov("batch_boundary_cuts", json!(cuts.len()));
+    }
     rep.cov("evaluations", json!(evaluations));
     rep.cov("distinct_nontrivial", json!(inside));
     rep.cov("exhaustive", json!(true));
     rep.cov("bases", json!(bs.iter().map(|b| json!({"name": b.name, "bytes": b.bytes.len()})).collect::<Vec<_>>()));
-    rep.cov("rule", json!("every cut position 0..=len of each base stream: in-process (real scanner file-like and pipe-like + real validators, check all / check all its / check all its-stave) and on the CLI (file and stdin; check all its(-stave), view rdh, view its-readout-frames). non-trivial = the cut falls strictly inside a packet"));
+    rep.cov("rule", json!("every cut position 0..=len of each base stream: in-process (real scanner file-like and pipe-like + real validators, check all / check all its / check all its-stave) and on the CLI (file and stdin; check all its(-stave), view rdh, view its-readout-frames); a 306-packet stream cut at / around the 100-packet batch boundaries (packet starts 99..101, 199..201, 299..301 and 1..65 bytes into packets 100, 200, 300) on the CLI. non-trivial = the cut falls strictly inside a packet"));
     rep.sample(json!({"base": bs[0].name, "cut": 100, "expect": "packet 0 complete and judged as in the full run, packet 1 incomplete"}));
     rep.assume("messages are attributed to packets by their leading offset; a message whose offset lies at or beyond the first incomplete packet is taken to concern that packet");
     rep.finish()
